@@ -131,19 +131,19 @@ def describe_packets(file_path: Path) -> None:
 
     # Determine rows to display (head and tail with ellipsis if necessary)
     if npackets > MAX_ROWS:
-        packets_to_show = packets[:HEAD_ROWS] + packets[-HEAD_ROWS:]
+        head_packets, tail_packets = packets[:HEAD_ROWS], packets[-HEAD_ROWS:]
     else:
-        packets_to_show = packets
+        head_packets, tail_packets = packets, []
 
     # Add rows to the table
-    for packet in packets_to_show[:HEAD_ROWS]:
+    for packet in head_packets:
         table.add_row(*[str(value) for value in packet.header_values])
 
     # Add ellipsis if there are more packets
     if npackets > MAX_ROWS:
         table.add_row(*["..." for _ in packets[0].header_values])
 
-    for packet in packets_to_show[-HEAD_ROWS:]:
+    for packet in tail_packets:
         table.add_row(*[str(value) for value in packet.header_values])
 
     # Print the table
@@ -180,7 +180,7 @@ def parse(
         )
 
     if packet is not None:
-        if packet > len(packets):
+        if packet < 0 or packet >= len(packets):
             console.print(f"Packet index {packet} out of range with only {len(packets)} packets in the file")
             return
         packets = packets[packet]
